@@ -24,7 +24,10 @@ one abstract run per external signing entry point (pure; HashML-DSA x 3 pre-hash
       NTT(y)); c-hat = NTT(c); c*s1, c*s2, c*t0 from the key precomputes (Montgomery factor
       cancels); z = y + c*s1; w1 = HighBits(w); LowBits(w - c*s2); MakeHint(-c*t0, w - c*s2 + c*t0).
       With C18 F (the transforms are the FIPS maps) every step of Sign_internal is accounted for.
-Trusted: the hash implementations; that NTT diagonalises the negacyclic product (mathematics).
+  S10 w1Encode is SimpleBitPack with the FIPS bit order (every coefficient bit a boolean symbol, output
+      bytes as exact forms); the z packing is BitPack in the FIPS order by C08 R4 + R5.
+Not decided: SampleInBall's shuffle as an algorithm, HintBitPack's layout beyond C08 R1, the fill
+order of the rejection samplers.  Trusted: hash implementations; NTT diagonalisation (mathematics).
 """
 import os
 import sys
@@ -159,10 +162,29 @@ def ring_arithmetic(rep, ob, sets, samples):
                                                            "atomize": "hashing::rej_ntt_poly|hashing::expand_mask|hashing::sample_in_ball|ntt::ntt|ntt::inv_ntt",
                                                            "dump_args": "ntt::ntt|ntt::inv_ntt|encodings::sig_encode|high_low::make_hint|high_low::low_bits|high_low::high_bits",
                                                            "loopcut": "ml_dsa::sign_internal:1"})]
+        P_ = aicheck.PARAMS[s]
+        c_ = st.bitlen((Q - 1) // (2 * P_["gamma2"]) - 1)
+        jobs[s + ":w1"] = [("%s:w1" % s, "encodings::w1_encode::<%d_usize>" % P_["k"], {"arg0": "%d..%d" % (P_["gamma2"], P_["gamma2"]), "atoms.arg1": "bits%d" % c_, "atoms.big": "1", "lin.cap": "64",
+                                                                                       "result_from_arg": "2", "dump_bytes": "1", "len.w1_tilde": "%d..%d" % (32 * P_["k"] * c_, 32 * P_["k"] * c_)})]
     res, errs = aicheck.run_sets(jobs, timeout=6000)
     for s in sets:
         P = aicheck.PARAMS[s]
         k, l = P["k"], P["l"]
+        # S10: w1Encode = SimpleBitPack with the FIPS bit order
+        rw = res.get(s + ":w1")
+        c = st.bitlen((Q - 1) // (2 * P["gamma2"]) - 1)
+        bf = rw and rw["jobs"][0].get("bytes_forms")
+        ok10, bad10 = False, None
+        if bf and len(bf) == 32 * k * c:
+            ok10 = True
+            for jb, f in enumerate(bf):
+                want = {"arg1[%d].%d" % ((8 * jb + t) // c, (8 * jb + t) % c): 1 << t for t in range(8)}
+                got = None if f is None else (f[0], f[1], {x: y for x, y in f[2]})
+                if got != (0, 0, want):
+                    ok10, bad10 = False, {"byte": jb, "code": str(got)[:200]}
+                    break
+        ob(ok10, "S10:w1encode-layout", {"rule": "S10 w1Encode is SimpleBitPack: bit t of byte j is bit (8j+t) mod c of coefficient (8j+t) div c, c = bitlen((q-1)/(2 gamma2) - 1)", "set": s, "c": c,
+                                         "bytes": bf and len(bf), "first_mismatch": bad10})
         r = res.get(s)
         if r is None or r["jobs"][0].get("error"):
             vlib.fail_closed(rep, "driver-ring:%s" % s, (errs.get(s) or str(r and r["jobs"][0].get("error")))[-400:])
